@@ -30,7 +30,8 @@ RULE = ("states are descriptions of one physical circuit; the generators are nod
 ASSUMPTIONS = ["numpy accuracy on the palettes", "names are drawn from palettes whose sort order interleaves sources, inductors and passives"]
 EXPLANATION = "metamorphic two-run relations on the real solver, phasor engine, port impedance, state-space builder and transient simulation"
 NAMES = ["A", "IsA", "L", "R", "VsR", "Z"]          # sorted order interleaves kinds whatever the assignment
-NODE_NAMES = ["n09", "9", "Ba", "a"]              # '9' < 'Ba' < 'a' < 'n09'; nested on purpose ('9' in 'n09', 'a' in 'Ba')
+NODE_NAMES = ["n09", "9", "VsR", "L"]             # '9' < 'L' < 'VsR' < 'n09'; '9' is part of 'n09', and 'VsR' / 'L' are element ids as well
+                                                  # (node names and element ids are separate name spaces: a node may be called like an element)
 
 
 def budget_s(tier):
